@@ -112,7 +112,9 @@ func buildStubOverlay(pkgDir, pkgName, tmp string, dirs []stubDirective) (map[st
 	for _, d := range dirs {
 		recv, name, ok := parseLocalTarget(d.target)
 		if !ok {
-			return nil, "", fmt.Errorf("stub target %s is outside the package under test: no native replay", d.target)
+			// stubs of code outside the package are engine-only: natively the real callee runs and
+			// the harness observes it through its own recording environment (stated per harness)
+			continue
 		}
 		found := false
 		for _, pf := range files {
